@@ -33,7 +33,7 @@ def key_fn(case, obs, verdict):
 
 
 RULE = ("non-trivial: the implementation released at least 2 tokens and the profile is not a flat rate over a whole "
-        "number of seconds (steps always count; conc cases additionally need >= 2 goroutines); distinct = distinct case lines")
+        "number of seconds (steps always count; conc cases additionally need >= 2 goroutines, list cases >= 2 parts); distinct = distinct case lines")
 BRIDGES = ["Gen/Sched_bridge.v"]
 # float rounding bound (Flocq): statements only, proofs in Proofs/SchedFloat*.v (built once, cached)
 FLOAT = ["Properties/C01_float.v"]
@@ -44,7 +44,7 @@ TRUSTED = [
     "Model/SchedExpr.v; local definitions inlined, integer vs float division decided from the declared parameter types)",
     "extraction: ExtrOcamlBasic only; OCaml driver ocaml/C01/main.ml + ocaml/common/conv.ml (zarith for decimal I/O); the driver applies the "
     "float64 tolerance of DESIGN.md section 3 (1 ns + D*2^-40 on instants, relative 2^-40 on the integral before rounding down)",
-    "correspondence harness harness/cmd/hC01 (real schedule.NewConstConf/NewLineConf/NewStepConf/NewOnceConf, Start, Next, Left; conc cases: G goroutines released by a spinning barrier drain a fresh un-Started schedule, many rounds, wall-clock comparisons reduced to 0/1 flags)",
+    "correspondence harness harness/cmd/hC01 (real schedule.NewConstConf/NewLineConf/NewStepConf/NewOnceConf, Start, Next, Left; conc cases: G goroutines released by a spinning barrier drain a fresh un-Started schedule, many rounds, wall-clock comparisons reduced to 0/1 flags; list profiles = schedule.NewCompositeConf of real parts; meet mode wraps the first part so that its first G Next calls wait for each other)",
     "float64 rounding: PROVED within the driver's tolerance (Properties/C01_float.v, Flocq binary64 = FLT(-1074,53), round to nearest even) for "
     "const profiles (instants and count, rate = configured rational rounded once to float64, guard 2^-20 <= ops <= 2^40, D <= 2^62, k < 2^53), for "
     "the count of every non-flat line with binary64 rates, for the instants of increasing lines (incl. the cancellation term D*kappa*2^-48; slope guard "
@@ -52,7 +52,8 @@ TRUSTED = [
     "of steep decreasing lines, lines whose rates are not binary64 numbers, and step levels accumulated by float additions stay modelled in exact "
     "arithmetic with the tolerance measured by the correspondence run only",
     "modelled, not verified: int64 overflow of token counts beyond 2^63 (C01_float bounds the converted values inside int64 under I <= 2^62); "
-    "do_at.go / step.go loop / composite sequencing are hand-modelled (tied by the correspondence run, the step loop header also by the translator)",
+    "do_at.go / step.go loop / composite sequencing and the concurrent sections of composite.go (Model/SchedConc.v, shared with C02; used by C01_shared*) "
+    "are hand-modelled (tied by the correspondence run, the step loop header also by the translator)",
     "C01_closed_form: Coq Reals axioms ClassicalDedekindReals.sig_forall_dec, sig_not_dec, FunctionalExtensionality.functional_extensionality_dep; "
     "C01_float_*: the same three plus Classical_Prop.classic (through Flocq)",
 ]
@@ -63,7 +64,8 @@ ASSUMPTIONS = [
     "lines) of the exact value and the count within relative 2^-40 of the integral (Properties/C01_float.v: const, line counts, increasing-line instants, "
     "decreasing-line instants under the stated conditioning); for the late operations of steep decreasing lines the same tolerance is measured on every "
     "run, not proved",
-    "sync/atomic counter of doAtSchedule is linearizable (token k is handed out once; concurrency is property C02)",
+    "sync/atomic counter of doAtSchedule is linearizable: one leaf operation = one atomic step of the concurrent model behind C01_shared* "
+    "(the leaf's own interleavings are property C02's C02_leaf); sync.RWMutex gives the sections of composite.go mutual exclusion as modelled",
 ]
 
 
